@@ -37,13 +37,25 @@ pub fn l_schema() -> Schema {
                 enum_ids: None,
             },
         ],
-        acts: vec![ActDef {
-            id: "view".into(),
-            member_of: vec![],
-            principals: vec!["User".into()],
-            resources: vec!["Doc".into()],
-            context: vec![at("who", user(), false), at("r", Ty::Rec(vec![at("u", user(), true)]), true)],
-        }],
+        acts: vec![
+            ActDef {
+                id: "view".into(),
+                member_of: vec![],
+                principals: vec!["User".into()],
+                resources: vec!["Doc".into()],
+                context: vec![at("who", user(), false), at("r", Ty::Rec(vec![at("u", user(), true)]), true)],
+            },
+            // an action hierarchy: dereferencing an action literal other than the request's own
+            // action needs an entity no level slice holds
+            ActDef { id: "writers".into(), member_of: vec![], principals: vec![], resources: vec![], context: vec![] },
+            ActDef {
+                id: "edit".into(),
+                member_of: vec!["writers".into()],
+                principals: vec!["User".into()],
+                resources: vec!["Doc".into()],
+                context: vec![at("who", user(), false), at("r", Ty::Rec(vec![at("u", user(), true)]), true)],
+            },
+        ],
     }
 }
 
@@ -142,7 +154,10 @@ pub fn l_requests() -> Vec<Req> {
                 let mut r = BTreeMap::new();
                 r.insert("u".to_string(), Val::Uid(ru.clone()));
                 c.insert("r".to_string(), Val::Rec(r));
-                out.push(Req { principal: p.clone(), action: view(), resource: dd(), context: c });
+                out.push(Req { principal: p.clone(), action: view(), resource: dd(), context: c.clone() });
+                if who.is_none() {
+                    out.push(Req { principal: p.clone(), action: edit(), resource: dd(), context: c });
+                }
             }
         }
     }
@@ -299,6 +314,35 @@ pub fn policies(tier: Tier) -> Vec<LPol> {
             let ite3 = E::ite(E::bin(BinOp::Gt, E::attr(pr.clone(), "age"), E::Long(1)), E::Ent(uc()), x.clone());
             push(format!("steps{}:if-literal-branch:eq", p.steps), guarded(g, E::bin(BinOp::Eq, ite3.clone(), E::attr(pr.clone(), "mgr"))), p.uses_tags, &mut out);
             push(format!("steps{}:if-literal-branch:age", p.steps), guarded(g, E::bin(BinOp::Gt, E::attr(ite3, "age"), E::Long(0))), p.uses_tags, &mut out);
+            // shapes that only permissive validation accepts (sets / branches mixing entity types)
+            // in front of the dereference chain (after seed C16-a2)
+            let rs = E::Var(Var::Resource);
+            push(format!("steps{}:permissive:mixed-set-then-age", p.steps), guarded(g, E::and(E::bin(BinOp::Contains, E::Set(vec![pr.clone(), rs.clone()]), pr.clone()), E::bin(BinOp::Gt, E::attr(x.clone(), "age"), E::Long(0)))), p.uses_tags, &mut out);
+            push(format!("steps{}:permissive:mixed-eq-or-in", p.steps), guarded(g, E::or(E::bin(BinOp::Eq, x.clone(), rs.clone()), E::bin(BinOp::In, x.clone(), E::Ent(gh())))), p.uses_tags, &mut out);
+            push(format!("steps{}:permissive:mixed-if-then-mgr", p.steps), guarded(g, E::and(E::bin(BinOp::Neq, E::ite(E::bin(BinOp::Gt, E::attr(pr.clone(), "age"), E::Long(1)), pr.clone(), rs.clone()), E::Ent(gg())), E::bin(BinOp::Gt, E::attr(E::attr(x.clone(), "mgr"), "age"), E::Long(0)))), p.uses_tags, &mut out);
+        }
+    }
+    // the action hierarchy: literals of the request's own action, of another action, `action` itself
+    // (after seed C16-a1)
+    let writers = || E::Ent(Uid::new("Action", "writers"));
+    let act = E::Var(Var::Action);
+    let action_bodies: Vec<(&str, E)> = vec![
+        ("action:other-literal-in-group", E::bin(BinOp::In, E::Ent(edit()), writers())),
+        ("action:own-literal-in-group", E::bin(BinOp::In, E::Ent(view()), writers())),
+        ("action:var-in-group", E::bin(BinOp::In, act.clone(), writers())),
+        ("action:var-in-set", E::bin(BinOp::In, act.clone(), E::Set(vec![writers(), E::Ent(view())]))),
+        ("action:group-literal-in-group", E::bin(BinOp::In, writers(), writers())),
+        ("action:other-literal-in-set", E::bin(BinOp::In, E::Ent(edit()), E::Set(vec![writers()]))),
+        ("action:not-other-literal-in-group", E::not(E::bin(BinOp::In, E::Ent(edit()), writers()))),
+        ("action:var-eq-literal", E::bin(BinOp::Eq, act.clone(), E::Ent(edit()))),
+        ("action:other-literal-in-group-and-age", E::and(E::bin(BinOp::In, E::Ent(edit()), writers()), E::bin(BinOp::Gt, E::attr(E::Var(Var::Principal), "age"), E::Long(0)))),
+    ];
+    for (shape, body) in action_bodies {
+        for scope in [AS::Any, AS::Eq(view()), AS::Eq(edit()), AS::In(Uid::new("Action", "writers"))] {
+            let id = format!("L{}", out.len());
+            let mut pol = Pol::simple(&id, if out.len() % 4 == 3 { Effect::Forbid } else { Effect::Permit }, Some(body.clone()));
+            pol.action = scope;
+            out.push(LPol { pol, uses_tags: false, shape: format!("steps0:{shape}") });
         }
     }
     out
